@@ -2263,37 +2263,84 @@ func ruleFoldArity(p *Program, r *Reporter) {
 			}
 			nth[label]++
 			key := fmt.Sprintf("%s/%s/bytecode write %d needs %d pending constant(s)", p.FnName(fold), label, nth[label], need)
-			// a dominating test len(list) >= need (or > need-1) on its true edge
-			good := false
-			for cur := b; cur.Idom() != nil && !good; cur = cur.Idom() {
-				d := cur.Idom()
-				iff, ok := terminator(d).(*ssa.If)
-				if !ok {
-					continue
+			// a dominating test len(list) >= need (or > need-1) on its true edge,
+			// or len(list) < need on its false edge
+			enough := func(at *ssa.BasicBlock, isList func(v ssa.Value) bool) bool {
+				for cur := at; cur.Idom() != nil; cur = cur.Idom() {
+					d := cur.Idom()
+					iff, ok := terminator(d).(*ssa.If)
+					if !ok {
+						continue
+					}
+					onTrue := (d.Succs[0] == at || d.Succs[0].Dominates(at)) && len(d.Succs[0].Preds) == 1
+					onFalse := (d.Succs[1] == at || d.Succs[1].Dominates(at)) && len(d.Succs[1].Preds) == 1
+					bo, ok := iff.Cond.(*ssa.BinOp)
+					if !ok || !(onTrue || onFalse) {
+						continue
+					}
+					lc, isLen := isBuiltinCall(bo.X, "len")
+					if !isLen || !isList(lc.Call.Args[0]) {
+						continue
+					}
+					k, kok := constInt(bo.Y)
+					if !kok {
+						continue
+					}
+					switch {
+					case bo.Op == token.GEQ && onTrue && k >= need,
+						bo.Op == token.GTR && onTrue && k >= need-1,
+						bo.Op == token.EQL && onTrue && k >= need,
+						bo.Op == token.LSS && onFalse && k >= need,
+						bo.Op == token.LEQ && onFalse && k >= need-1:
+						return true
+					}
 				}
-				onTrue := (d.Succs[0] == b || d.Succs[0].Dominates(b)) && len(d.Succs[0].Preds) == 1
-				bo, ok := iff.Cond.(*ssa.BinOp)
-				if !ok || !onTrue {
-					continue
+				return false
+			}
+			good := enough(b, func(v ssa.Value) bool {
+				l2, ok := v.(*ssa.UnOp)
+				return ok && sameAddr(l2.X, list)
+			})
+			// the test may sit in the function that does the writing: it is
+			// handed the list, and every write of its own is behind the test
+			if cl, isCall := st.(*ssa.Call); isCall && !good {
+				h := cl.Call.StaticCallee()
+				k := -1
+				for i, arg := range cl.Call.Args {
+					if l2, ok := arg.(*ssa.UnOp); ok && sameAddr(l2.X, list) {
+						k = i
+					}
 				}
-				lc, isLen := isBuiltinCall(bo.X, "len")
-				if !isLen {
-					continue
-				}
-				if l2, ok := lc.Call.Args[0].(*ssa.UnOp); !ok || !sameAddr(l2.X, list) {
-					continue
-				}
-				k, kok := constInt(bo.Y)
-				if !kok {
-					continue
-				}
-				switch bo.Op {
-				case token.GEQ:
-					good = k >= need
-				case token.GTR:
-					good = k >= need-1
-				case token.EQL:
-					good = k >= need
+				if k >= 0 && k < len(h.Params) {
+					all, n := true, 0
+					for _, hb := range h.Blocks {
+						for _, hi := range hb.Instrs {
+							writes := false
+							switch y := hi.(type) {
+							case *ssa.Store:
+								if ia, ok := y.Addr.(*ssa.IndexAddr); ok {
+									if ld, ok := ia.X.(*ssa.UnOp); ok && isByteSlice(ld.Type()) {
+										_, writes = ld.X.(*ssa.FieldAddr)
+									}
+								}
+							case *ssa.Call:
+								if c2 := y.Call.StaticCallee(); c2 != nil && fnPkg(c2) != nil && fnPkg(c2).Pkg.Path() == Mod+"/vm" && c2 != h && storesCode(c2) > 0 {
+									writes = true
+								}
+							}
+							if !writes {
+								continue
+							}
+							n++
+							okW := enough(hb, func(v ssa.Value) bool { return v == ssa.Value(h.Params[k]) })
+							if !okW {
+								all = false
+							}
+							// each write of the helper is an obligation of its own
+							r.Check(okW, fmt.Sprintf("%s/%s/%s: bytecode write %d needs %d pending constant(s)", p.FnName(fold), label, h.Name(), n, need), p.Pos(hi.Pos()), "behind the helper's own test for enough pending constants", fmt.Sprintf("the folder rewrites the program here although fewer than %d constant operand(s) are known to precede the operator", need))
+						}
+					}
+					good = all && n > 0
 				}
 			}
 			r.Check(good, key, p.Pos(st.Pos()), "dominated by a test for enough pending constants", fmt.Sprintf("the folder rewrites the program here although fewer than %d constant operand(s) are known to precede the operator: the other operand is whatever the script computes at run time, so `Name + 0` or `Missing * 1` — a type error unoptimized — silently yields its operand when optimized", need))
